@@ -39,9 +39,11 @@ Record Feasible (vr : vresources) (m : pmachine) (cs : list pconstr) (pl : place
   feas_vertices : forall v, In v (map fst pl) <-> In v (map fst vr);
   (* ... on a working chip *)
   feas_live : forall v c, zassoc v pl = Some c -> live m c = true;
-  (* no chip's resources are exceeded once the reservations are subtracted *)
+  (* no chip's resources are exceeded once the reservations are subtracted (what is left of a resource is
+     never counted as less than nothing: a chip whose reservations exceed its capacity can host only
+     vertices that need none of that resource -- in particular the empty placement is feasible) *)
   feas_capacity : forall c r, live m c = true ->
-                              load vr pl c r <= capacity m c r - reserved cs c r;
+                              load vr pl c r <= Z.max 0 (capacity m c r - reserved cs c r);
   (* every location constraint is honoured *)
   feas_location : forall v c, In (PCLocation v c) cs -> zassoc v pl = Some c;
   (* all members of every same-chip group share a chip *)
@@ -86,7 +88,7 @@ Definition check_placement (vr : vresources) (m : pmachine) (cs : list pconstr) 
   && forallb (fun v => zmem v (map fst vr)) (map fst pl)
   && forallb (fun v => zmem v (map fst pl)) (map fst vr)
   && forallb (fun vc => live m (snd vc)) pl
-  && forallb (fun c => forallb (fun r => load vr pl c r <=? capacity m c r - reserved cs c r)
+  && forallb (fun c => forallb (fun r => load vr pl c r <=? Z.max 0 (capacity m c r - reserved cs c r))
                                (all_resources vr m cs)) (raster m)
   && forallb (check_constraint pl) cs.
 
